@@ -31,9 +31,9 @@ GEN = """CONSTANTS
   MaxBuffered = 64
   AgeMust = 15
   BulkSizes = {2, 3, 30, 49, 50, 51, 70}
-  TickSizes = {1, 9, 11, 15, 30}
+  TickSizes = {1, 9, 11, 15, 30, 86403}
   MaxIssued = 100000
-  MaxTime = 100000
+  MaxTime = 100000000
 SPECIFICATION GenSpec
 INVARIANT Emit
 CHECK_DEADLOCK FALSE
